@@ -370,6 +370,8 @@ func run(id, tier string) int {
 		Blocks     int    `json:"blocks"`
 		Complete   bool   `json:"complete"`
 		Sample     string `json:"sample"`
+		Known      int64  `json:"known_finding_hits"`
+		KnownEx    string `json:"known_finding_example,omitempty"`
 	}
 	sweeps := map[string]*sweepReport{}
 	sweepOrder := []string{}
@@ -418,13 +420,17 @@ func run(id, tier string) int {
 				m, ok := sweeps[rp.Name]
 				if !ok {
 					c := rp
-					c.Evaluated, c.Blocks = 0, 0
+					c.Evaluated, c.Blocks, c.Known = 0, 0, 0
 					m = &c
 					sweeps[rp.Name] = m
 					sweepOrder = append(sweepOrder, rp.Name)
 				}
 				m.Evaluated += rp.Evaluated
 				m.Blocks += rp.Blocks
+				m.Known += rp.Known
+				if m.KnownEx == "" {
+					m.KnownEx = rp.KnownEx
+				}
 				m.Complete = m.Complete && rp.Complete
 				sweepEvaluated += rp.Evaluated
 			}
